@@ -147,7 +147,25 @@ def view_facts(b, block):
         while isinstance(x, tuple) and x and x[0] in ("discr", "ref", "deref"):
             x = x[1]
         if isinstance(x, tuple) and x and x[0] == "call" and x[1] == SLICE_GET and len(x[2]) == 2 and is_map_slice(x[2][0]):
-            fs.append(("cmp", "Lt", x[2][1], ("call", MAPLEN, (("param", 0, b.local_name(1)),), (), MAPLEN)))
+            i = strip_casts(x[2][1])
+            if i[0] == "adt" and i[1] == "std::ops::RangeFrom" and len(i[4]) == 1:
+                # `slice.get(i..)` is Some only if i <= map.len()
+                fs.append(("cmp", "Le", i[4][0], ("call", MAPLEN, (("param", 0, b.local_name(1)),), (), MAPLEN)))
+            elif i[0] != "adt":
+                fs.append(("cmp", "Lt", x[2][1], ("call", MAPLEN, (("param", 0, b.local_name(1)),), (), MAPLEN)))
+    # the length test of a slice pattern over the tail: len(map_slice[s..]) >= c  is  s + c <= map.len()
+    for f in list(fs):
+        if f[0] != "cmp":
+            continue
+        op, a, c = f[1], f[2], f[3]
+        if op in ("Le", "Lt"):
+            op, a, c = {"Le": "Ge", "Lt": "Gt"}[op], c, a
+        a0, c0 = strip_casts(a), strip_casts(c)
+        if op in ("Ge", "Gt", "Eq") and a0[0] == "un" and a0[1] == "PtrMetadata" and c0[0] == "const" and isinstance(c0[1], int):
+            s0 = subslice_start(a0[2])
+            if s0 is not None:
+                need = c0[1] + (1 if op == "Gt" else 0)
+                fs.append(("cmp", "Le", ("bin", "Add", s0, ("const", need)), ("call", MAPLEN, (("param", 0, b.local_name(1)),), (), MAPLEN)))
     # the same bound stated in bytes: `n <= 8 * (map.len() - offset - c)` is `offset + c + bytes_to_words(n) <= map.len()`
     from guards import linear
     for f in list(fs):
@@ -182,6 +200,23 @@ def view_facts(b, block):
     return fs
 
 
+def subslice_start(t):
+    """t is (the pointee of) the Some payload of `map_slice.get(s..)`: returns s."""
+    x = t
+    for _ in range(6):
+        while isinstance(x, tuple) and x and x[0] in ("deref", "ref", "cast"):
+            x = x[1]
+        if isinstance(x, tuple) and x and x[0] in ("field", "downcast"):
+            x = x[1]
+        else:
+            break
+    if isinstance(x, tuple) and x and x[0] == "call" and x[1] == SLICE_GET and len(x[2]) == 2 and is_map_slice(x[2][0]):
+        r = strip_casts(x[2][1])
+        if r[0] == "adt" and r[1] == "std::ops::RangeFrom" and len(r[4]) == 1:
+            return r[4][0]
+    return None
+
+
 def analyse_view(b):
     """Touch sites of a view constructor with the facts that dominate them."""
     sites = []
@@ -211,6 +246,11 @@ def analyse_view(b):
                     base = b.term_of_place({"l": p["l"], "p": p["p"][:k]})
                     if is_map_slice(base):
                         sites.append({"kind": "index", "block": bi, "idx": b.term_of_local(e["idx"]), "sp": st["sp"]})
+                elif isinstance(e, dict) and "cidx" in e and not e.get("from_end"):
+                    # an element of a slice pattern over the tail of the map: `let Some(&[a, b, ..]) = slice.get(offset..)`
+                    s0 = subslice_start(b.term_of_place({"l": p["l"], "p": p["p"][:k]}))
+                    if s0 is not None:
+                        sites.append({"kind": "index", "block": bi, "idx": ("bin", "Add", s0, ("const", e["cidx"])) if e["cidx"] else s0, "sp": st["sp"]})
     # an element read used directly as a `match` scrutinee
     for bi in sorted(b.reachable()):
         t = b.blocks[bi]["term"]
@@ -239,6 +279,35 @@ def analyse_view(b):
     return sites
 
 
+MODELLED_SLICE_CALLS = ("get", "as_ptr", "as_mut_ptr", "len", "is_empty", "iter", "index")
+
+
+def unmodelled_slice_calls(b):
+    """Slice / split APIs in a view constructor that the touch-site model does not read (`split_first`, `split_at`, `first`,
+    `chunks`, ..): the header and the payload are then reached through values the rules cannot tie to the map, and a failing
+    obligation of that view is "cannot establish", not "refuted"."""
+    out = []
+    for bi, t in b.calls():
+        n = callee_name(t)
+        if (n.startswith("core::slice::<impl [") or n.startswith("std::slice::<impl [")) and n.split("::")[-1].split("<")[0] not in MODELLED_SLICE_CALLS:
+            out.append(n.split("::")[-1])
+    return sorted(set(out))
+
+
+class Softened:
+    """Obligation sink for one view: failures become undecided when the constructor uses slice APIs outside the model."""
+    def __init__(self, ctx, unmodelled):
+        self._ctx, self._un = ctx, unmodelled
+
+    def ob(self, rule, key, where, ok, how="", detail="", nontrivial=True, positive=False):
+        if ok is False and self._un and not positive:
+            return self._ctx.ob(rule, key, where, None, how, (detail or "") + " [the constructor uses %s, outside the touch-site model]" % ", ".join(self._un), nontrivial, False)
+        return self._ctx.ob(rule, key, where, ok, how, detail, nontrivial, positive)
+
+    def __getattr__(self, a):
+        return getattr(self._ctx, a)
+
+
 def check_views(ctx, F, tag, prefix):
     vs = views(F)
     # the element slice of a map has exactly map.len() elements (what makes a bound against map.len() a bound on the slice)
@@ -250,8 +319,10 @@ def check_views(ctx, F, tag, prefix):
         ctx.ob(prefix + ".map-slice-length", ASREF + tag, loc(ab.raw["span"]), oka, "term-shape",
                "as_ref(map) = from_raw_parts(ptr, self.len) and map.len() = self.len: %s" % oka, nontrivial=False)
     ctx.count("mapped-view-impls" + tag, len(vs))
+    ctx0 = ctx
     for im, b in vs:
         name = im["self_ty"].get("def", im["self_ty"]["s"])
+        ctx = Softened(ctx0, unmodelled_slice_calls(b))
         refuse = refusing_edges(b)
         sites = analyse_view(b)
         ctx.count("mapped-touch-sites" + tag, len(sites))
@@ -261,7 +332,8 @@ def check_views(ctx, F, tag, prefix):
             if t["t"] == "assert" and t["kind"].startswith("Overflow("):
                 ops = [b.term_of_operand(o) for o in t["ops"]]
                 if any(core_param(x) == 1 or (strip_casts(x)[0] == "param" and strip_casts(x)[1] == 1) for x in ops):
-                    ok, f = bounded_by_len(view_facts(b, bi), ("param", 1, b.local_name(2)), strict=True)
+                    # (offset <= map.len() is enough here: a map has at most isize::MAX / 8 elements, so offset + c cannot wrap)
+                    ok, f = bounded_by_len(view_facts(b, bi), ("param", 1, b.local_name(2)), strict=False)
                     ctx.ob(prefix + ".offset-bounded-before-arithmetic", "%s|%s%s" % (name, t["kind"], tag), loc(t["sp"]), ok, "guard-dominance",
                            "`%s` on the caller-supplied offset %s" % (t["kind"], "is dominated by offset < map.len()" if ok else
                            "is NOT dominated by a comparison of offset with map.len(): offset = usize::MAX panics (debug) or wraps past the guard (release) instead of returning an error"))
